@@ -114,6 +114,30 @@ def recursive_cases(draw, subject):
     return {"kind": "readings", "cfg": cfg, "tf": None, "fill": False, "lifespan": life, "ha": False, "stream": rows, "preload": 0, "preload_calc": True, "chunks": [burst] + [1] * tail, "recursive": True}
 
 
+# look-back in candles (the new candle included) of the classes that compute from a window. For classes whose update
+# reads the value LEAVING the window (SMA, sigma, hence BBANDS) that is period + 1: with exactly `period` candles
+# retained no rolling implementation can give readings *identical* to the untrimmed run, so the statement's look-back
+# is read as what the update needs there.
+WINDOW = {"WMA": 0, "VWMA": 0, "Donchian": 0, "ROC": 1, "AROON": 1, "HighestLowest": 1, "SMA": 1, "StandardDeviation": 1, "BBANDS": 1}
+
+
+@st.composite
+def window_exact_cases(draw, subject):
+    """one candle per append at a regular cadence with a lifespan that keeps EXACTLY the look-back window: every
+    append trims one candle, and every new reading has just what it needs"""
+    cfg = draw(gc.config(subject))
+    cfg["kw"]["period"] = draw(st.integers(2, 9))
+    cfg["kw"].pop("input_value", None)
+    look = cfg["kw"]["period"] + WINDOW[subject]
+    step = draw(st.sampled_from((1, 60, 300)))
+    n = look + draw(st.integers(4, 40))
+    prices = draw(gs.price_rows(n))
+    start = gs.BASE_DAY + draw(st.integers(0, 500))
+    rows = [[start + i * step] + r for i, r in enumerate(prices)]
+    extra = draw(st.sampled_from((0, 0, 0, 1, 2)))  # mostly exact, sometimes one or two candles to spare
+    return {"kind": "readings", "cfg": cfg, "tf": None, "fill": False, "lifespan": (look - 1 + extra) * step, "ha": False, "stream": rows, "preload": 0, "preload_calc": True, "chunks": [1] * n, "window_exact": extra == 0}
+
+
 def _mk(case, lifespan):
     from hexital.core.candle_manager import CandleManager
 
@@ -140,7 +164,7 @@ def _mk(case, lifespan):
 def run_case(case) -> Result:
     subject = gc.subject_of(case["cfg"]) if "cfg" in case else "retention"
     life = case["lifespan"]
-    labels = [case["kind"]] + (["ha"] if case.get("ha") else []) + (["recursive_short_window"] if case.get("recursive") else [])
+    labels = [case["kind"]] + (["ha"] if case.get("ha") else []) + (["recursive_short_window"] if case.get("recursive") else []) + (["window_exact"] if case.get("window_exact") else [])
     try:
         free, _ = _mk(case, None)
     except Exception:
@@ -229,6 +253,8 @@ def shards(tier):
         out.append(Shard("readings:" + s, (lambda s=s: reading_cases(s)), m, subject=s, cost=cost))
     for s in RECURSIVE:
         out.append(Shard("recursive:" + s, (lambda s=s: recursive_cases(s)), m, subject=s, cost=2))
+    for s in WINDOW:
+        out.append(Shard("window-exact:" + s, (lambda s=s: window_exact_cases(s)), 3 * m, subject=s))
     for s in ("fn:rising", "fn:highest", "fn:crossover", "fn:doji", "fn:hammer", "fn:mean_rising"):
         out.append(Shard("readings:" + s, (lambda s=s: reading_cases(s)), m, subject=s))
     return out
